@@ -64,7 +64,8 @@ Definition starts_with (p s : str) : bool :=
 (* ---- escapes ------------------------------------------------------------ *)
 (* as_escaped_char: None is the code's -1 *)
 Definition as_escaped_char (c : Z) (chr : bool) : option Z :=
-  if c =? 7 then Some 97 else if c =? 8 then Some 98 else if c =? 9 then Some 116
+  if c =? 0 then (if chr then Some 48 else None)
+  else if c =? 7 then Some 97 else if c =? 8 then Some 98 else if c =? 9 then Some 116
   else if c =? 10 then Some 110 else if c =? 11 then Some 118 else if c =? 12 then Some 102
   else if c =? 13 then Some 114 else if c =? 92 then Some 92
   else if chr && (c =? 39) then Some 39
